@@ -1,5 +1,6 @@
 import Model
 import Model.Wire
+import Model.Geometry
 /-!
 # Line-protocol driver: one JSON case per input line, one JSON verdict per output line.
 -/
@@ -160,11 +161,52 @@ def runSem (j : Json) : Json :=
             Json.mkObj [("name", o.name), ("cell", cell), ("latency", match l with | some v => toJson v | none => Json.null),
               ("trace", Json.arr (trace.map (fun v => Json.num (JsonNumber.fromInt v))).toArray)])
           Json.mkObj [("iterate", Json.arr results.toArray)]
-      Json.mkObj [("id", id), ("elab", "ok"), ("stateful", Json.bool stateful),
+      let outputsJson := Json.arr (core.named.toList.filterMap (fun nm =>
+        if nm.topLevel && !core.consumed.contains nm.name then
+          some (Json.mkObj [("name", nm.name), ("line", nm.line), ("bundle", Json.bool nm.isBundle),
+            ("const", Json.bool (match core.nodes[nm.node]? with | some (.input ..) => true | some (.const ..) => true | _ => false))])
+        else none)).toArray
+      let inputsJson := Json.arr (core.nodes.toList.filterMap (fun nd => match nd with
+        | .input name ty v => some (Json.mkObj [("name", name), ("ty", ty), ("lit", Json.num (JsonNumber.fromInt v.toInt))])
+        | _ => none)).toArray
+      Json.mkObj [("id", id), ("elab", "ok"), ("stateful", Json.bool stateful), ("outputs", outputsJson), ("inputs", inputsJson),
         ("n_nodes", core.nodes.size), ("n_obs", obs.length), ("n_inputs", inputs.length),
         ("obs", Json.arr (obs.map (fun o => Json.str o.name)).toArray),
         ("unsupported", Json.arr (unsupported.map Json.str).toArray),
         ("wire", wireJson), ("history", histJson), ("valuations", done), ("mismatches", Json.arr (ms.map Mismatch.toJson).toArray)]
+
+/-- static semantics only: does the reference elaborator accept the program? -/
+def runWf (j : Json) : Json :=
+  let id := jgetD j "id"
+  let prog := decodeProgram (jgetD j "ast")
+  let known : Option (List String) := match (jgetD j "known").getArr?.toOption with
+    | some a => some (a.toList.filterMap (fun x => x.getStr?.toOption))
+    | none => none
+  match elabProgram prog known with
+  | .error e => Json.mkObj [("id", id), ("accept", Json.bool false), ("class", e.cls.toString), ("msg", e.msg), ("line", e.line)]
+  | .ok core => Json.mkObj [("id", id), ("accept", Json.bool true), ("n_nodes", core.nodes.size),
+      ("n_ents", core.ents.size), ("n_mems", core.mems.size),
+      ("ents", Json.arr (core.ents.map (fun e => Json.mkObj [("proto", e.proto), ("line", e.line),
+        ("pos", match e.pos with | some (x, y) => Json.arr #[Json.num (JsonNumber.fromInt x), Json.num (JsonNumber.fromInt y)] | none => Json.null),
+        ("props", Json.arr (e.props.map (fun (k, v) => Json.arr #[Json.str k, Json.str v])).toArray)])))]
+
+/-- geometry / structure of the printed blueprint (C08, C09, C18) -/
+def runGeo (j : Json) : Json :=
+  let id := jgetD j "id"
+  match parseBlueprint (jgetD j "printed") with
+  | .error e => Json.mkObj [("id", id), ("blueprint_error", e)]
+  | .ok bp =>
+    let protos := ((jgetD j "geometry").getArr?.toOption.getD #[]).map decodeProto
+    let checkPower := ((jgetD j "check_power").getBool?.toOption).getD false
+    let g := geoCheck bp protos checkPower
+    let num (i : Nat) : Json := toJson ((bp.ents.getD i default).number)
+    let ents := Json.arr (bp.ents.map (fun e => Json.mkObj [("n", e.number), ("name", e.name), ("x2", Json.num (JsonNumber.fromInt e.x2)), ("y2", Json.num (JsonNumber.fromInt e.y2))]))
+    Json.mkObj [("id", id), ("n_entities", bp.ents.size), ("n_wires", bp.wires.size),
+      ("geometry_rows", protos.size),
+      ("overlaps", Json.arr (g.overlaps.map (fun (a, b) => Json.arr #[num a, num b])).toArray),
+      ("bad_wires", Json.arr (g.badWires.map (fun (k, why) => Json.mkObj [("wire", k), ("why", why)])).toArray),
+      ("unpowered", Json.arr (g.unpowered.map num).toArray),
+      ("pole_components", g.poleComponents), ("n_poles", g.nPoles), ("entities", ents)]
 
 def handle (line : String) : String :=
   match Json.parse line with
@@ -172,6 +214,8 @@ def handle (line : String) : String :=
   | .ok j =>
     match jstrD j "mode" "sem" with
     | "sem" => (runSem j).compress
+    | "wf" => (runWf j).compress
+    | "geo" => (runGeo j).compress
     | m => (Json.mkObj [("id", jgetD j "id"), ("error", s!"unknown mode {m}")]).compress
 
 partial def loop (h : IO.FS.Stream) (out : IO.FS.Stream) : IO Unit := do
